@@ -79,6 +79,12 @@ CHECKS = {
         note="Reference answer of a query = its answer alone on a fresh manager. Worker completion orders are varied by delays, not enumerated on the real code (they are enumerated in the model).",
         ref="6 C13", tech="TLA+ state machine model-checked by TLC; TLC trace validation of recorded executions (IsEvent pattern); TLC-simulated behaviours replayed",
     ),
+    "C14": dict(
+        level="fault_enumeration",
+        text="Budget.tla composes the Manager machine with budgets and a clock (documented arithmetic total/preprocessing/per-query, 0 = unlimited); TLC checks NoUnflaggedWrong, no fault-caused exception and no spurious flags for all budget triples, durations and expiry placements. On the real code a virtual clock replaces the deadline and timing clocks: after a dry run that counts them, EVERY observation point of each scenario is turned into an expiry (k-th clock read jumps past all deadlines) or a solver give-up (k-th z3 Optimize.check returns unknown), followed by an un-budgeted call on the same manager; all traces, including the durations handed to Deadline.from_duration, are validated by TLC against Budget.tla.",
+        note="Solver time-outs are simulated by the `unknown` result (the only way the code observes them); faults are injected in sequential evaluation, one parallel run per scenario is validated without faults. Sticky preprocessing-timed-out flag in later calls is accepted as a named deviation (rows are flagged).",
+        ref="6 C14", tech="fault enumeration over all clock-observation and solver-check points with an interposed virtual clock; TLC trace validation against Budget.tla; TLC model checking of the budget design",
+    ),
 }
 
 NOT_YET = {
